@@ -198,6 +198,13 @@ type Property interface {
 	Describe() Info
 }
 
+// NondeterminismProperty is implemented by properties whose violations are themselves
+// run-to-run differences (C24): a replay is attempted several times and a violation that was
+// observed but does not reproduce is still reported.
+type NondeterminismProperty interface {
+	ReplayAttempts() int
+}
+
 type Info struct {
 	Rule           string
 	Assumptions    []string
